@@ -4,6 +4,7 @@ package c11
 
 import (
 	"encoding/json"
+	"github.com/alibaba/sentinel-golang/core/base"
 	"math"
 	"time"
 
@@ -35,7 +36,14 @@ type Cfg struct {
 	Queue bool `json:"queue,omitempty"`
 	// Huge (scripted scenario): a practically unlimited threshold (up to MaxInt64 and beyond). Ten single-token
 	// requests per second are far below threshold/coldFactor: every one of them passes.
-	Huge    bool   `json:"huge,omitempty"`
+	Huge bool `json:"huge,omitempty"`
+	// Sparse (scripted scenario): one request every GapMs milliseconds, out of step with the seconds, at a rate
+	// between the cold rate and the threshold, for 6*period+15 s: at some point four requests in a row pass.
+	Sparse bool   `json:"sparse,omitempty"`
+	GapMs  uint64 `json:"gap_ms,omitempty"`
+	// HoldMs (with Sparse and Interval 10000): a rule counted per 10 s - the length of the resource's whole
+	// statistic - under one request every 50 ms whose entries are exited HoldMs later
+	HoldMs  uint64 `json:"hold_ms,omitempty"`
 	QueueMs uint32 `json:"queue_ms,omitempty"`
 	// memory adaptive
 	LowT    int64 `json:"low_t,omitempty"`
@@ -57,6 +65,7 @@ func (P) Describe() harness.Description {
 		Level:   "exploration",
 		Rule: "case = warm-up rule (threshold 0.5-60 incl. fractional and below the cold factor, period 1-10 s, cold factor 0 (default), 2-5, now and then 10-100, statistic interval 1 s or 2-5 s) with a demand history of phases in virtual seconds (idle, saturating demand at four instants per second, steady single-token demand once per second), or a memory-adaptive rule (thresholds, water marks) with a sweep of injected memory readings. " +
 			"Warm-up: admitted tokens in every aligned statistic window <= threshold; first second after an idle of >= 2*period+2 s admits <= ceil(T/coldFactor)+1; the last second of a saturating phase of >= 2*period+5 s admits >= floor(T); a steady single-token demand of >= 4*period+10 s is admitted at least once when T >= 1; the effective threshold (overlay accessor) is finite, >= 0 and <= T. " +
+			"Scripted scenarios (a few per cent of the cases each): a queueing warm-up rule under a caller that never lets go; one request every 550-700 ms at a rate between the cold rate and the threshold (at some point four in a row pass); a rule counted per 10 s whose entries are exited a few hundred ms later; thresholds of 1e15 ... 1e300 (cold right after loading, a demand of 10/s untouched); cold factor MaxUint32. " +
 			"Memory: effective threshold == low-memory threshold at/below the low mark, == high-memory threshold at/above the high mark, between them and non-increasing in between; a fresh window admits exactly floor(effective). non-trivial = a cold start was observed and the full threshold was reached later (warm-up) / all three regions were visited (memory); distinct = hash(config, ops)",
 		Assumptions: []string{"the slack constants (2*period+2 s idle, 2*period+5 s saturation, 4*period+10 s steady demand) are generous bounds chosen from the property text, not from the implementation", "effective threshold read through the overlay-only accessor flow.VerifControllersFor + the exported CalculateAllowedTokens"},
 		Real:        []string{"api.Entry/Exit", "core/flow (warm-up calculator, memory-adaptive calculator, reject checker, rule manager)", "core/stat windows (previous-window QPS)", "system_metric.SetSystemMemoryUsage"},
@@ -79,8 +88,22 @@ func (P) Gen(rng *sim.Rng, tier string) *harness.Case {
 		return &harness.Case{Cfg: harness.MustJSON(cfg), Callers: [][]harness.Op{{{K: "queue"}}}}
 	}
 	if rng.Chance(0.02) {
-		cfg = Cfg{Origin: cfg.Origin, Huge: true, T: []float64{1e15, 4e18, 9223372036854775807, 1e19, 1e300}[rng.Intn(5)], Period: uint32([]int{1, 10, 60}[rng.Intn(3)]), Cold: uint32([]int{0, 2, 3}[rng.Intn(3)])}
+		cfg = Cfg{Origin: cfg.Origin, Huge: true, T: []float64{1e15, 4e18, 9223372036854775807, 1e19, 1e300}[rng.Intn(5)], Period: uint32([]int{1, 10, 60}[rng.Intn(3)]), Cold: []uint32{0, 2, 3, 4294967295}[rng.Intn(4)]}
+		if cfg.Cold == 4294967295 && rng.Chance(0.5) {
+			// the largest cold factor with an ordinary threshold: the rule starts at (about) nothing and warms up
+			cfg.T, cfg.Period = 200, 10
+		}
 		return &harness.Case{Cfg: harness.MustJSON(cfg), Callers: [][]harness.Op{{{K: "huge"}}}}
+	}
+	if rng.Chance(0.03) {
+		cfg = Cfg{Origin: cfg.Origin + rng.U64Range(0, 999), Sparse: true, GapMs: []uint64{550, 630, 700}[rng.Intn(3)], T: 3,
+			Period: uint32(rng.Range(2, 5)), Cold: uint32([]int{0, 3}[rng.Intn(2)])}
+		return &harness.Case{Cfg: harness.MustJSON(cfg), Callers: [][]harness.Op{{{K: "sparse"}}}}
+	}
+	if rng.Chance(0.01) {
+		cfg = Cfg{Origin: cfg.Origin + rng.U64Range(0, 999), Sparse: true, HoldMs: []uint64{120, 290, 510}[rng.Intn(3)], Interval: 10000, T: float64([]int{30, 60}[rng.Intn(2)]),
+			Period: uint32([]int{20, 30}[rng.Intn(2)]), Cold: 3}
+		return &harness.Case{Cfg: harness.MustJSON(cfg), Callers: [][]harness.Op{{{K: "tensec"}}}}
 	}
 	var ops []harness.Op
 	if cfg.Memory {
@@ -209,6 +232,14 @@ func (P) Exec(c *harness.Case) *harness.Outcome {
 	}
 	if cfg.Huge {
 		execHuge(o, &cfg, clk)
+		return o
+	}
+	if cfg.Sparse && cfg.HoldMs > 0 {
+		execTenSec(o, &cfg, clk)
+		return o
+	}
+	if cfg.Sparse {
+		execSparse(o, &cfg, clk)
 		return o
 	}
 	if !harness.Call(o, "C11.panic", 0, func() {
@@ -550,6 +581,10 @@ func execQueue(o *harness.Outcome, cfg *Cfg, clk *sim.Clock) {
 
 // execHuge: see Cfg.Huge.
 func execHuge(o *harness.Outcome, cfg *Cfg, clk *sim.Clock) {
+	if cfg.T == 200 && cfg.Cold == 4294967295 && cfg.Period <= 20 {
+		execHugeFactor(o, cfg, clk)
+		return
+	}
 	if cfg.T < 1e9 || cfg.Period > 100 {
 		return
 	}
@@ -564,6 +599,15 @@ func execHuge(o *harness.Outcome, cfg *Cfg, clk *sim.Clock) {
 	}
 	o.Nontrivial = true
 	o.Probe("practically_unlimited_threshold")
+	// a rule that has just been loaded has seen no traffic: it starts no higher than about threshold/coldFactor
+	coldF := float64(cfg.Cold)
+	if cfg.Cold <= 1 {
+		coldF = 3
+	}
+	if eff, ok := effective(o, 0, 1); ok && eff > cfg.T/coldF*1.01+1 {
+		o.Fail("C11.cold-start-too-high", 0, "warm-up rule with threshold %v (period %d s, cold factor %d) right after loading: effective threshold %v, a rule that has seen no traffic starts at about threshold/coldFactor = %v", cfg.T, cfg.Period, cfg.Cold, eff, cfg.T/coldF)
+		return
+	}
 	for sec := 0; sec < 30 && !o.Failed(); sec++ {
 		passed := 0
 		for i := 0; i < 10; i++ {
@@ -581,5 +625,158 @@ func execHuge(o *harness.Outcome, cfg *Cfg, clk *sim.Clock) {
 			o.Fail("C11.starved", 0, "warm-up rule with a practically unlimited threshold (%v, period %d s, cold factor %d): in second %d of a demand of 10 single-token requests per second only %d passed; even the cold rate threshold/coldFactor is far above the demand", cfg.T, cfg.Period, cfg.Cold, sec, passed)
 			return
 		}
+	}
+}
+
+// execSparse: see Cfg.Sparse.
+func execSparse(o *harness.Outcome, cfg *Cfg, clk *sim.Clock) {
+	cold := float64(cfg.Cold)
+	if cfg.Cold <= 1 {
+		cold = 3
+	}
+	rate := 1000 / float64(cfg.GapMs)
+	if cfg.Period > 20 || cfg.GapMs < 100 || cfg.GapMs >= 1000 || cfg.T < 1 || cfg.T > 1000 || rate <= 1.2*cfg.T/cold || rate >= cfg.T {
+		return
+	}
+	if !harness.Call(o, "C11.panic", 0, func() {
+		_, err := flow.LoadRules([]*flow.Rule{{Resource: "res-0", TokenCalculateStrategy: flow.WarmUp, ControlBehavior: flow.Reject,
+			Threshold: cfg.T, WarmUpPeriodSec: cfg.Period, WarmUpColdFactor: cfg.Cold}})
+		if err != nil {
+			o.Fail("C11.load-error", 0, "%v", err)
+		}
+	}) || o.Failed() {
+		return
+	}
+	start := clk.NowMs()
+	total := uint64(6*cfg.Period+15) * 1000
+	var trace []byte
+	for clk.NowMs()-start < total && !o.Failed() {
+		if request(o, 0, 1) {
+			trace = append(trace, '+')
+		} else {
+			trace = append(trace, '-')
+		}
+		clk.AdvanceMs(cfg.GapMs)
+		o.SimMs += cfg.GapMs
+	}
+	if o.Failed() {
+		return
+	}
+	o.Nontrivial = true
+	o.Probe("steady_demand_out_of_step_with_the_seconds")
+	// "reaches the full threshold after sustained demand": at some point after the first period the demand, which
+	// is within the threshold, passes untouched for a while - four requests in a row. (Not: for good. A second in
+	// which the one request that fell into it was rejected counts as low traffic and cools the rule down again;
+	// the pass count of a second cannot tell little demand from rejected demand, and the property does not say
+	// that the rule stays warm.)
+	run, best := 0, 0
+	skip := int(uint64(cfg.Period) * 1000 / cfg.GapMs)
+	for i, ch := range trace {
+		if ch == '+' && i >= skip {
+			run++
+			if run > best {
+				best = run
+			}
+		} else {
+			run = 0
+		}
+	}
+	if best < 4 {
+		o.Fail("C11.not-warmed-up", 0, "warm-up rule (threshold %v per second, period %d s, cold factor %d, i.e. a cold rate of %.2f/s) under one request every %d ms (%.2f/s: above the cold rate, below the threshold) for %d s: never more than %d requests in a row passed after the first period - the demand is sustained and within the threshold, the rule must warm up to it (all requests: %s)", cfg.T, cfg.Period, cfg.Cold, cfg.T/cold, cfg.GapMs, rate, 6*cfg.Period+15, best, trace)
+	}
+}
+
+// execTenSec: see Cfg.HoldMs.
+func execTenSec(o *harness.Outcome, cfg *Cfg, clk *sim.Clock) {
+	if cfg.Interval != 10000 || cfg.Period > 60 || cfg.T < 10 || cfg.T > 200 || cfg.HoldMs > 2000 {
+		return
+	}
+	if !harness.Call(o, "C11.panic", 0, func() {
+		_, err := flow.LoadRules([]*flow.Rule{{Resource: "res-0", TokenCalculateStrategy: flow.WarmUp, ControlBehavior: flow.Reject,
+			Threshold: cfg.T, WarmUpPeriodSec: cfg.Period, WarmUpColdFactor: cfg.Cold, StatIntervalInMs: cfg.Interval}})
+		if err != nil {
+			o.Fail("C11.load-error", 0, "%v", err)
+		}
+	}) || o.Failed() {
+		return
+	}
+	type held struct {
+		e   *base.SentinelEntry
+		due uint64
+	}
+	var open []held
+	start := clk.NowMs()
+	total := uint64(3*cfg.Period+40) * 1000
+	per := map[uint64]int{}
+	for clk.NowMs()-start < total && !o.Failed() {
+		now := clk.NowMs()
+		for len(open) > 0 && open[0].due <= now {
+			e := open[0].e
+			open = open[1:]
+			harness.Call(o, "C11.panic", 0, func() { e.Exit() })
+		}
+		harness.Call(o, "C11.panic", 0, func() {
+			if e, _ := sentinel.Entry("res-0"); e != nil {
+				per[now/10000]++
+				open = append(open, held{e, now + cfg.HoldMs})
+			}
+		})
+		clk.AdvanceMs(50)
+		o.SimMs += 50
+	}
+	for _, h := range open {
+		e := h.e
+		harness.Call(o, "C11.panic", 0, func() { e.Exit() })
+	}
+	if o.Failed() {
+		return
+	}
+	o.Nontrivial = true
+	o.Probe("rule_counted_per_the_whole_length_of_the_resource_statistic")
+	best := 0
+	var shown []int
+	for w := start/10000 + 1; w < clk.NowMs()/10000; w++ {
+		shown = append(shown, per[w])
+		if w >= start/10000+1+uint64(cfg.Period)/10 && per[w] > best {
+			best = per[w]
+		}
+	}
+	if float64(best) < 0.8*cfg.T {
+		o.Fail("C11.not-warmed-up", 0, "warm-up rule (threshold %v per 10 s, period %d s, cold factor %d) under one request every 50 ms, each entry exited %d ms after it was admitted, for %d s: no 10 s interval after the first period passed more than %d tokens (passed per interval: %v)", cfg.T, cfg.Period, cfg.Cold, cfg.HoldMs, 3*cfg.Period+40, best, shown)
+	}
+}
+
+// execHugeFactor: threshold 200 per second, cold factor MaxUint32, a saturating demand of 202 requests per second in
+// four instalments for 2*period+10 s: the last second passes most of the threshold.
+func execHugeFactor(o *harness.Outcome, cfg *Cfg, clk *sim.Clock) {
+	if !harness.Call(o, "C11.panic", 0, func() {
+		_, err := flow.LoadRules([]*flow.Rule{{Resource: "res-0", TokenCalculateStrategy: flow.WarmUp, ControlBehavior: flow.Reject,
+			Threshold: cfg.T, WarmUpPeriodSec: cfg.Period, WarmUpColdFactor: cfg.Cold}})
+		if err != nil {
+			o.Fail("C11.load-error", 0, "%v", err)
+		}
+	}) || o.Failed() {
+		return
+	}
+	if r := clk.NowMs() % 1000; r != 0 {
+		clk.AdvanceMs(1000 - r)
+	}
+	o.Nontrivial = true
+	o.Probe("largest_cold_factor")
+	last := 0
+	for sec := 0; sec < int(2*cfg.Period+10) && !o.Failed(); sec++ {
+		last = 0
+		for q := 0; q < 4; q++ {
+			for i := 0; i < 51 && !o.Failed(); i++ {
+				if request(o, 0, 1) {
+					last++
+				}
+			}
+			clk.AdvanceMs(250)
+			o.SimMs += 250
+		}
+	}
+	if !o.Failed() && float64(last) < 0.8*cfg.T {
+		o.Fail("C11.never-warms-up", 0, "warm-up rule (threshold %v, period %d s, cold factor %d) under a saturating demand for %d s: the last second passed %d tokens", cfg.T, cfg.Period, cfg.Cold, 2*cfg.Period+10, last)
 	}
 }
